@@ -4,8 +4,12 @@
 (* One action per public mutator of                                        *)
 (*   pallas-network/src/miniprotocols/chainsync/buffer.rs                  *)
 (* The observers (size/latest/oldest/position/peek) are functions of buf.  *)
-(* Where the property is silent - which occurrence of a duplicated point a *)
-(* roll-back keeps - the specification is nondeterministic.                *)
+(* A roll-back to a point that is buffered more than once keeps everything *)
+(* up to its FIRST occurrence: that is the occurrence the public observer  *)
+(* position() reports, so the two public methods must agree on what "the   *)
+(* position of a point" is (tightened after seeded change C26-t12, which   *)
+(* made roll_back search from the tip while position() searches from the   *)
+(* front; on a real chain points are unique and the two coincide).         *)
 EXTENDS Sequences, Integers, FiniteSets, SequencesExt
 
 CONSTANTS Points,      \* point alphabet
@@ -24,10 +28,12 @@ RollForward(p) ==
     /\ buf' = Append(buf, p)
     /\ last' = [op |-> "roll_forward", p |-> p]
 
-\* keep everything up to (and including) an occurrence of p; unknown => empty
+FirstOcc(p) == CHOOSE i \in Occ(p) : \A j \in Occ(p) : i <= j
+
+\* keep everything up to (and including) the first occurrence of p; unknown => empty
 RollBack(p) ==
     \/ /\ Occ(p) # {}
-       /\ \E i \in Occ(p) :
+       /\ LET i == FirstOcc(p) IN
             /\ buf' = SubSeq(buf, 1, i)
             /\ last' = [op |-> "roll_back", p |-> p, res |-> "Handled"]
     \/ /\ Occ(p) = {}
@@ -59,6 +65,7 @@ RollBackHandledKeepsPrefix ==
     [][\A p \in Points : (last'.op = "roll_back" /\ last'.p = p /\ last' # last) =>
           IF p \in Range(buf)
           THEN last'.res = "Handled" /\ IsPrefix(buf', buf) /\ buf' # <<>> /\ buf'[Len(buf')] = p
+               /\ Len(buf') = Position(p) + 1
           ELSE last'.res = "OutOfScope" /\ buf' = <<>>]_vars
 
 PopReturnsOldestBeyondDepth ==
